@@ -16,9 +16,9 @@ M = [
  ("C09-setmode-keeps-validuntil", "internal/buffer/buffer.go", r"\tif b\.markerOpen \{\n\t\tb\.endRedactable\(\)\n\t\}\n\tb\.validUntil = len\(b\.buf\)\n\tb\.mode = newMode", "\tif b.markerOpen {\n\t\tb.endRedactable()\n\t}\n\tb.mode = newMode", ["C09", "C01"], "SetMode no longer advances validUntil past the closing marker"),
  ("C10-end-marker-copy-from-short", "internal/escape/escape.go", r"\t\t\tk = i \+ le\n\t\t\ti \+= le - 1", "\t\t\tk = i + le - 1\n\t\t\ti += le - 1", ["C10", "C01"], "after an end marker the copy cursor restarts one byte early (the marker's last byte is copied); the variant `i += le - 2` is an equivalent mutant (0xBA cannot start a marker) and was dropped"),
  ("C11-invalid-rune-sized-1", "internal/buffer/buffer.go", r"\t\tl = utf8\.RuneLen\(utf8\.RuneError\)", "\t\tl = 1", ["C11"], "invalid rune sized as 1 byte (the repair of D1 replaced by shrinking)"),
- ("C12-nested-keeps-buf", "internal/rfmt/printer_adapter.go", r"\tnp\.doPrintf\(format, arg\)\n\tp\.buf = np\.buf\n\tnp\.buf = buffer\{\}\n", "\tnp.doPrintf(format, arg)\n\tp.buf = np.buf\n", ["C12"], "nested Printf recycles its printer while it still shares the parent's buffer"),
+ ("C12-nested-keeps-buf", "internal/rfmt/printer_adapter.go", r"\tnp\.doPrintf\(format, arg\)\n\tfinished = true\n\tp\.buf = np\.buf\n\tnp\.buf = buffer\{\}\n", "\tnp.doPrintf(format, arg)\n\tfinished = true\n\tp.buf = np.buf\n", ["C12"], "nested Printf recycles its printer while it still shares the parent's buffer"),
  ("C12-wrappederr-not-cleared", "internal/rfmt/print.go", r"\tp\.wrappedErr = nil\n\tppFree", "\tppFree", ["C12", "C15"], "free() no longer clears the wrapped-error slot"),
- ("C12-override-not-reset", "internal/rfmt/printer_adapter.go", r"\tnp\.buf = buffer\{\}\n\tnp\.override = noOverride\n\tnp\.free\(\)\n\}\n\nfunc \(p \*pp\) UnsafeString", "\tnp.buf = buffer{}\n\tnp.free()\n}\n\nfunc (p *pp) UnsafeString", ["C12"], "nested Printf recycles its printer with the inherited override still set"),
+ ("C12-override-not-reset", "internal/rfmt/printer_adapter.go", r"\tnp\.buf = buffer\{\}\n\tnp\.override = noOverride\n\tnp\.free\(\)\n\}\n\n// keepNestedOutput", "\tnp.buf = buffer{}\n\tnp.free()\n}\n\n// keepNestedOutput", ["C12"], "nested Printf recycles its printer with the inherited override still set"),
  ("C12-scratch-hoisted", "internal/rfmt/format.go", r"type fmt struct \{\n\tbuf \*buffer\n", "var sharedIntbuf [68]byte\n\ntype fmt struct {\n\tbuf *buffer\n", ["C12"], "placeholder (see RESULTS note)"),
  ("C13-len-finalizes-receiver", "internal/buffer/buffer.go", r"\tcopy := \*b\n\tcopy\.finalize\(\)\n\treturn len\(copy\.buf\)", "\tb.finalize()\n\treturn len(b.buf)", ["C13"], "Len finalizes the receiver instead of a copy"),
  ("C14-hash-dropped-with-minus", "internal/fmtforward/make_format.go", r"\tif hash \{\n", "\tif hash && !minus {\n", ["C14"], "MakeFormat drops '#' when '-' is set"),
